@@ -24,7 +24,7 @@ Creds == {"none"} \cup SessionCreds \cup BearerCreds \cup BasicCreds \cup ComboC
 \* Neither matches the e-mail rule, which admits addresses @example.com.
 Users == {"alice", "bob", "carol", "dave", "erin"}
 Endpoints == {"proxy", "authonly", "userinfo", "sign_in", "start", "static", "robots", "ping"}
-Methods == {"GET", "POST", "OPTIONS"}
+Methods == {"GET", "POST", "OPTIONS", "HEAD", "DELETE"}
 \* which bypass the REQUEST matches (route: path under /open; ip: trusted source address), or which one it only CLAIMS to match through
 \* client-supplied headers the proxy must ignore with reverse-proxy off (X-Forwarded-Uri: /open/x ; X-Forwarded-For / X-Real-Ip: trusted address)
 Bypass  == {"none", "route", "ip", "spoof_uri", "spoof_ip"}
@@ -82,7 +82,8 @@ InScope(c) ==
     /\ (c.bypass \in {"spoof_uri", "spoof_ip"} => c.endpoint \in {"proxy", "authonly"} /\ c.errmode \in {"page", "force_json", "accept_json"})
     /\ (c.endpoint \notin {"proxy", "authonly", "userinfo"} => c.method = "GET" /\ c.bypass = "none" /\ c.errmode = "page" /\ DefaultCfg(c.cfg)
                                                              /\ c.cred \in {"none", "valid", "expired", "bearer_valid"})
-    /\ (c.method = "POST" => c.endpoint \in {"proxy", "authonly"})
+    /\ (c.method \in {"POST", "HEAD", "DELETE"} => c.endpoint \in {"proxy", "authonly"})
+    /\ (c.method \in {"HEAD", "DELETE"} => c.errmode = "page" /\ c.bypass \in {"none", "route"})
     \* feature switches only matter for the credentials they govern
     /\ (~c.cfg.bearer => c.cred \in BearerCreds \cup ComboCreds \cup {"none", "valid"})
     /\ (~c.cfg.htpasswd => c.cred \in BasicCreds \cup {"none", "valid"})
@@ -92,6 +93,7 @@ InScope(c) ==
           /\ (c.bypass # "none" => c.cred \in {"none", "valid", "expired", "tamper_sig", "bearer_otherkey", "basic_wrongpw"} /\ c.errmode \in {"page", "force_json"})
           /\ (c.method = "OPTIONS" => c.cred \in {"none", "valid", "tamper_sig"})
           /\ (c.method = "POST" => c.cred \in {"none", "valid", "expired", "bearer_valid"})
+          /\ (c.method \in {"HEAD", "DELETE"} => c.cred \in {"none", "valid", "tamper_sig"} /\ c.user = "alice" /\ DefaultCfg(c.cfg))
           /\ (c.errmode \in {"accept_json", "api_route"} => c.cred \in {"none", "valid", "expired", "tamper_value", "bearer_otherkey"} /\ c.method = "GET")
           /\ (~DefaultCfg(c.cfg) => Cardinality({f \in {"preflight", "forceJSON", "spb"} : c.cfg[f]} \cup {f \in {"bearer", "htpasswd"} : ~c.cfg[f]}) = 1))
 
